@@ -52,9 +52,14 @@ def run(chk):
         keypool = [10, 2, 33, 4][:nk] if numeric else ["b", "a", "zz", "C"][:nk]
         keys = [rng.choice(keypool) for _ in range(n)]
         feat = [rng.choice(vals[:rng.randint(1, 5)]) for _ in range(n)]
+        tvals = ["x", "y"]
+        if t % 5 == 3:
+            # feature texts containing a dot (version-like / decimal strings): different (s, t) pairs whose dotted concatenations agree
+            feat = [rng.choice(["7.1", "7", "1"]) for _ in range(n)]
+            tvals = ["2", "1.2"]
         # row labels: unique in any order, or REPEATED across groups (tables concatenated without ignore_index): rows are rows
         idx = rng.sample(range(100), n) if rng.random() < 0.6 else [rng.randrange(max(2, n // 2)) for _ in range(n)]
-        df = pd.DataFrame({"g": keys, "s": feat, "t": [rng.choice(["x", "y"]) for _ in range(n)]}, index=idx)
+        df = pd.DataFrame({"g": keys, "s": feat, "t": [rng.choice(tvals) for _ in range(n)]}, index=idx)
         # the model sorts string keys; numeric keys are zero-padded so that the string order equals the numeric order
         skey = (lambda k: f"{k:06d}") if numeric else (lambda k: k)
         tbl = [[skey(k), v] for k, v in zip(keys, feat)]
@@ -241,6 +246,19 @@ def run(chk):
                     if not same:
                         chk.violation(f"C13|{name}|stale-after-in-place-edit", f"{name} on a table whose feature column was overwritten in place = {r_same}, "
                                       f"on a fresh copy with the same content = {r_new}", {**meta, "t_after_edit": list(dfe["t"])})
+    # two groups that share one clone 47 000 times each (more than 2^31 coinciding cross pairs): the cross value is still a probability
+    nbig = 47001
+    dfb = pd.DataFrame({"g": ["a"] * (nbig + 3) + ["b"] * (nbig + 5), "s": ["CASSF"] * nbig + ["CA", "CB", "CC"] + ["CASSF"] * nbig + ["CD"] * 5})
+    r_ = core.call_real(lambda: st.pc_grouped_cross(dfb, "g", "s"))
+    want_ = Fraction(nbig * nbig, (nbig + 3) * (nbig + 5))
+    chk.case(nontrivial_key="large-cross")
+    if r_[0] != "ok" or not close(float(r_[1].loc["a", "b"]), float(want_), 1e-12) or not close(float(r_[1].loc["b", "a"]), float(want_), 1e-12):
+        chk.violation("C13|pc_grouped_cross|large", f"pc_grouped_cross for two groups sharing a clone {nbig} times each = "
+                      f"{str(r_[1].values.tolist() if r_[0] == 'ok' else r_)[:120]}, expected {float(want_)} (more than 2^31 coinciding pairs)", {"n": nbig})
+    r2_ = core.call_real(lambda: float(st.pc_conditional(dfb, "g", "s")))
+    want2_ = (Fraction(nbig * (nbig - 1), (nbig + 3) * (nbig + 2)) + Fraction(nbig * (nbig - 1) + 20, (nbig + 5) * (nbig + 4))) / 2
+    if r2_[0] != "ok" or not close(r2_[1], float(want2_), 1e-12):
+        chk.violation("C13|pc_conditional|large", f"pc_conditional for two large groups = {r2_}, expected {float(want2_)}", {"n": nbig})
     for bad in (0, -2.0):
         r = core.call_real(lambda: en.renyi2_entropy(pd.DataFrame({"s": ["a", "a"]}), "s", base=bad))
         if r != ("error", "ValueError"):
